@@ -5,8 +5,14 @@ use super::queue_state::*;
 use super::wake_thread::*;
 
 use std::fmt;
+#[cfg(not(desync_verif))]
 use std::sync::*;
+#[cfg(desync_verif)]
+use crate::verif::sync::*;
+#[cfg(not(desync_verif))]
 use std::thread;
+#[cfg(desync_verif)]
+use crate::verif::thread;
 use std::collections::vec_deque::*;
 
 use futures::task;
